@@ -63,32 +63,83 @@ def _features(prop, tier, extra=()):
     return ",".join(f)
 
 
+def list_harnesses(prop, tier):
+    """Harness names from the source of the property's module (explicit `#[kani::proof] pub fn cNN_*`).
+    Guard: every `#[kani::proof]` attribute must be matched to a name, otherwise the listing is refused."""
+    mod = prop.lower()
+    files = sorted(glob.glob(os.path.join(KANI_DIR, "src", mod + ".rs")) + glob.glob(os.path.join(KANI_DIR, "src", mod + "_*.rs")))
+    names, proofs = [], 0
+    for path in files:
+        proof = thorough = False
+        for line in open(path):
+            t = line.strip()
+            if not t or t.startswith("//"):
+                continue
+            if t.startswith("#["):
+                if t.startswith("#[kani::proof"):
+                    proof = True
+                    proofs += 1
+                if 'feature = "thorough"' in t:
+                    thorough = True
+                continue
+            m = re.match(r"pub fn (%s_\w+)\s*\(" % mod, t)
+            if m and proof:
+                if tier == "thorough" or not thorough:
+                    names.append(f"{mod}::{m.group(1)}")
+                else:
+                    pass
+                proof = False
+                thorough = False
+                continue
+            if proof and not t.startswith("#"):
+                return None, f"{path}: #[kani::proof] not followed by `pub fn {mod}_...` ({t[:60]})"
+            thorough = False
+    if not names:
+        return None, "no harnesses found"
+    if len(set(names)) != len(names):
+        return None, "duplicate harness names"
+    return sorted(names), ""
+
+
 def codegen(prop, tier):
-    """Compile /repo + harness crate with kani-compiler; returns (harness names, log tail)."""
+    """List the harnesses and make sure /repo + harness crate compile under kani-compiler (one harness is
+    code-generated as a probe, which also builds the dependencies before the parallel runs start)."""
     ensure_dir(WORK)
     if not os.path.exists(PLAYBACK_FILE):
         with open(PLAYBACK_FILE, "w") as f:
             f.write(PLAYBACK_STUB)
+    t0 = time.time()
+    names, err = list_harnesses(prop, tier)
+    if names is None:
+        # macro-generated harness names: fall back to a full code generation and read Kani's own metadata
+        return codegen_full(prop, tier, t0)
+    cmd = ["cargo", "kani", "--target-dir", target_dir(prop, tier), "--features", _features(prop, tier)] + BASE_FLAGS + \
+          ["--only-codegen", "--harness", names[0], "--exact"]
+    rc, out = run(cmd, cwd=KANI_DIR, timeout=1800, log_path=os.path.join(WORK, f"{prop}-codegen.log"))
+    if rc != 0:
+        return None, out[-6000:], time.time() - t0
+    return names, "", time.time() - t0
+
+
+def codegen_full(prop, tier, t0):
     TARGET = target_dir(prop, tier)
     cmd = ["cargo", "kani", "--target-dir", TARGET, "--features", _features(prop, tier)] + BASE_FLAGS + ["--only-codegen"]
-    t0 = time.time()
     rc, out = run(cmd, cwd=KANI_DIR, timeout=1800, log_path=os.path.join(WORK, f"{prop}-codegen.log"))
     if rc != 0:
         return None, out[-6000:], time.time() - t0
     metas = glob.glob(os.path.join(TARGET, "kani", "*", "debug", "build", "tvk", "*", "out", "*.kani-metadata.json"))
-    if not metas:
-        metas = glob.glob(os.path.join(TARGET, "**", "tvk-*.kani-metadata.json"), recursive=True)
-    if not metas:
+    best, names = None, []
+    for mpath in metas:
+        try:
+            md = json.load(open(mpath))
+        except Exception:
+            continue
+        hs = sorted(h["pretty_name"] for h in md["proof_harnesses"])
+        # per-harness runs leave single-harness metadata behind: the full build is the largest listing
+        if len(hs) > len(names) or (len(hs) == len(names) and best and os.path.getmtime(mpath) > os.path.getmtime(best)):
+            best, names = mpath, hs
+    if not names:
         return None, "no kani metadata produced", time.time() - t0
-    newest = max(metas, key=os.path.getmtime)
-    md = json.load(open(newest))
-    names = sorted(h["pretty_name"] for h in md["proof_harnesses"])
-    # drop stale output dirs (older builds of this property/tier) to keep disk use flat
-    keep = os.path.dirname(os.path.dirname(newest))
-    for d in glob.glob(os.path.join(os.path.dirname(keep), "*")):
-        if d != keep:
-            import shutil
-            shutil.rmtree(d, ignore_errors=True)
     return names, "", time.time() - t0
 
 
